@@ -1406,3 +1406,42 @@ def after_idle(c):
     c.call((drv, 'receive_packet'), 0)
     c.ensure('nothing-else-received', 'result is None')
     c.ensure('no-link-error', "len(sent('link_error')) == 0")
+
+
+@contract('C01', 'delivery.empty-payload',
+          [RD + ':_RadioDriverThread.run', RD + ':_RadioDriverThread._send_packet_safe', RD + ':RadioDriver.send_packet', STK + ':CRTPPacket.__init__'],
+          clause='every packet accepted by send_packet reaches the Crazyflie exactly once and in order - also a packet that consists of its header only '
+                 '(empty payload): it is transmitted as a one-byte frame, not replaced by a keep-alive',
+          bounded='loss-free link, 6 transmissions; a header-only packet (any port / channel except the null header) followed by a one-byte packet')
+def delivery_empty_payload(c):
+    c.int('h0', 0, 255)
+    c.require('(h0 & 0xF3) != 0xF3')                     # 0xFx with channel 3 is the null packet by definition
+    ups = [c.new(STK + ':CRTPPacket', c.get('h0'), c.bytes('u0', 0)), c.new(STK + ':CRTPPacket', 0x31, c.bytes('u1', 1))]
+    peer = Peer(c, [])
+    stop = c.raiser('StopLoop')
+    drv = c.new(RD + ':RadioDriver')
+    inq, outq = c.queue('inq'), c.queue('outq', maxsize=1)
+    c.set(drv, 'in_queue', inq), c.set(drv, 'out_queue', outq)
+    errs = c.ext('link_error')
+    c.set(drv, 'link_error_callback', errs)
+    st = {'t': 0, 'submitted': 0}
+
+    def send(_i, args, _k):
+        t = st['t']
+        st['t'] += 1
+        if t > 5:
+            return stop()
+        if st['submitted'] < 2 and len(outq.items) == 0:
+            c.invoke((drv, 'send_packet'), ups[st['submitted']])
+            st['submitted'] += 1
+        return peer.handle(args[0], 'acked')
+    radio = c.ext('radio', returns={'send_packet': send})
+    th = c.new(RD + ':_RadioDriverThread', radio, inq, outq, None, errs, drv, None)
+    c.set(th, '_radio_link_statistics', c.ext('stats'))
+    c.call((th, 'run'))
+    c.ensure('loop-survives', "raised == 'StopLoop'")
+    c.let('na', len(peer.accepted)), c.let('ups', tuple(ups))
+    c.ensure('both-packets-once-in-order-header-only-first',
+             'na == 2 and len(acc0) == 1 and (acc0[0] & 0xF3) == (ups[0].header & 0xF3) and (acc1[0] & 0xF3) == (ups[1].header & 0xF3) and bytes(acc1[1:]) == bytes(ups[1].data)'
+             if len(peer.accepted) == 2 else 'na == 2')
+    c.ensure('no-link-error', "len(sent('link_error')) == 0")
